@@ -69,13 +69,12 @@ def k_tm(ctx, route, apid, count, service, subservice, msg_counter, dest_id, tim
         service, msg_counter = 17, 0
     case = {"k": "tm", "route": route, "apid": apid, "count": count, "service": service, "subservice": subservice,
             "msg_counter": msg_counter, "dest_id": dest_id, "time_ref": time_ref, "version": version,
-            "ts": ts_b.hex(), "data": data_b.hex() if len(data_b) <= 64 else None}
-    if len(data_b) > 64:
-        case["data_len"] = len(data_b)
+            "ts": ts_b.hex(), "data": data_b.hex()}          # complete, so that a witness can be replayed as it is
+    sample = case if len(data_b) <= 64 else dict(case, data=data_b[:8].hex() + "..", data_len=len(data_b))
     trivial = (service, subservice, msg_counter, dest_id, time_ref, version) == (17, 2, 0, 0, 0, 0) and len(ts_b) in (0, 7)
     ctx.case(f"tm/{route}/ts={len(ts_b)}/len={_lenclass(len(data_b))}",
              (route, apid, count, service, subservice, msg_counter, dest_id, time_ref, version, ts_b, hash(data_b)),
-             nontrivial=not trivial, sample=case)
+             nontrivial=not trivial, sample=sample)
     ctx.table("time_ref", time_ref)
     ctx.table("packet_version", version)
     ctx.table("timestamp_len", len(ts_b))
